@@ -54,6 +54,7 @@ type c12 struct {
 	stopsInFlight int
 	faulty        bool
 	ticksPending  []c12tick
+	stuck         int // consecutive quiescent points at which a delivered tick was not being taken (see c12tickStuck)
 	killed        bool
 	syncAcked     int // number of bytes of the sink known synced at a nil Sync return (for the crash oracle)
 	ackedIDs      map[int]bool
@@ -594,6 +595,12 @@ func (w *c12) onStep(clk *zsim.SimClock) {
 	// operation of the syncer - so that nobody can be holding the syncer's lock,
 	// whatever it is made of, and the flush goroutine (durably blocked, like
 	// everything at this point) can only be waiting for its next tick
+	if len(clk.Tickers) > 0 && !w.killed && w.firstStopInv == 0 {
+		tk := clk.Tickers[0]
+		if c12tickStuck(c, tk, &w.stuck, w.inOp.Load() == 0) {
+			return
+		}
+	}
 	if len(w.ticksPending) > 0 && len(clk.Tickers) > 0 {
 		tk := clk.Tickers[0]
 		busy := c.R.BGParkedIn(tk.Owner, tk.OwnerLen)
@@ -604,6 +611,28 @@ func (w *c12) onStep(clk *zsim.SimClock) {
 			c.R.Probe("flush tick processed")
 		}
 	}
+}
+
+// c12tickStuck: bounded liveness of the tick path. At a quiescent point every
+// goroutine is blocked. If a delivered tick still sits in the ticker's channel
+// there, although the syncer was not stopped, nobody is inside one of its
+// operations (so nobody holds its lock, whatever that is made of) and the
+// flush goroutine is not parked inside the simulator, then the flush goroutine
+// is not waiting for ticks any more: one that did would have taken this one.
+// Seen at two such quiescent points for the same tick it is reported.
+func c12tickStuck(c *Ctx, tk *zsim.SimTicker, count *int, idle bool) bool {
+	if len(tk.C) == 0 {
+		*count = 0
+		return false
+	}
+	if idle && !c.R.BGParkedIn(tk.Owner, tk.OwnerLen) {
+		*count++
+		if *count >= 2 {
+			c.Fail("C12-F: a delivered flush tick is never processed although the syncer has not been stopped", "the same tick sits in the ticker's channel at two quiescent points at which nothing could keep a flush goroutine from taking it: none is taking ticks any more")
+			return true
+		}
+	}
+	return false
 }
 
 // crashOracle: after a kill the device holds a whole-write-aligned prefix of
@@ -738,8 +767,19 @@ func runC12faulty(c *Ctx) {
 		}
 		return true
 	}
+	var inOp atomic.Int32
+	stopped, stuck := false, 0
+	r.OnStep = func() {
+		if len(clk.Tickers) > 0 && !stopped {
+			c12tickStuck(c, clk.Tickers[0], &stuck, inOp.Load() == 0)
+		}
+	}
 	r.Go("main", func() {
 		for i, op := range ops {
+			inOp.Store(1)
+			if op.kind == 'X' {
+				stopped = true
+			}
 			switch op.kind {
 			case 'W':
 				p := bytes.Repeat([]byte{byte('a' + i%26)}, op.n)
@@ -766,6 +806,7 @@ func runC12faulty(c *Ctx) {
 					return
 				}
 			}
+			inOp.Store(0)
 			zsim.Yield(zsim.KOp, nil)
 		}
 	})
